@@ -64,7 +64,7 @@ def run(ctx):
 
         # ---- binding: real outputs -> strict parser -> records -> TLC
         rec = os.path.join(d, "records.ndjson")
-        limit = 200 if ctx.quick else 4200
+        limit = 150 if ctx.quick else 4200
         p = vlib.sh([binp, "layout", "--out", rec, "--tier", ctx.tier, "--seed", str(ctx.seed), "--work", os.path.join(d, "w"),
                      "--limit", str(limit)], timeout=3000)
         summ = _summary(p)
@@ -130,7 +130,9 @@ def run(ctx):
         for df in defects:
             info = byid[df["id"]]
             for name in sorted(df["defects"]):
-                key = name + ("|incr" if info["nsecs"] > 1 else "")
+                # defects of the xref bookkeeping depend on whether the file is an incremental update; the others do not
+                sectional = name.startswith(("freelist", "size", "prev", "startxref", "section", "xrefstream"))
+                key = name + ("|incr" if sectional and info["nsecs"] > 1 else "")
                 seen.setdefault(key, []).append(df["id"])
         for key, ids in sorted(seen.items()):
             info = byid[ids[0]]
